@@ -53,7 +53,9 @@ theorem contains_err_iff (l : TL) (b : List (Var × Rat)) :
 
 /-- A list is reported empty exactly when no behaviour satisfies it — also when some or all of its rows are
     variable-free (`0 ≤ k`): since the repair of `is_polytope_empty` for matrices without columns the hypothesis
-    `Proper` of earlier versions of this theorem is gone. -/
+    `Proper` of earlier versions of this theorem is gone.  Checks only against a source whose `is_polytope_empty`
+    answers a matrix without columns by the signs of the constants (`Gen.emptyNoColsBySign`, read off the source on
+    every run: `rfl` below). -/
 theorem isEmpty_iff (O : Oracle) (hO : O.Certified) (l : TL) (e : Bool)
     (h : isEmpty O l = .ok e) : e = true ↔ ¬ ∃ v, TL.holds l v := by
   unfold isEmpty at h
@@ -67,7 +69,7 @@ theorem isEmpty_iff (O : Oracle) (hO : O.Certified) (l : TL) (e : Bool)
     · subst hl; exact ⟨fun _ => 0, TL.holds_nil _⟩
     · by_cases hn : l.vars.length = 0
       · rw [hn] at h
-        exact ⟨fun _ => 0, polyEmpty_false_nocols O l hl (TL.varfree_of_vars_nil l (List.length_eq_zero_iff.mp hn)) h _⟩
+        exact ⟨fun _ => 0, polyEmpty_false_nocols rfl O l hl (TL.varfree_of_vars_nil l (List.length_eq_zero_iff.mp hn)) h _⟩
       · exact polyEmpty_false O hO l _ hl hn h
 
 /-- Consistency with refinement: a behaviour contained in a list is contained in everything that list refines. -/
